@@ -1200,11 +1200,20 @@ func (c *c19Ctx) errLineOf(plain []byte) int {
 
 const cliWatchdog = 90 * time.Second
 
+// hangErr: the command was still running when the watchdog expired.
+type hangErr string
+
+func (e hangErr) Error() string { return string(e) }
+
 func (c *c19Ctx) execute(s *Scenario, keepDir bool) (out *ScenarioOutcome, viol *Violation, err error) {
 	defer func() {
 		if r := recover(); r != nil {
 			if me, ok := r.(modelErr); ok {
 				err = me
+				return
+			}
+			if he, ok := r.(hangErr); ok {
+				err = he
 				return
 			}
 			panic(r)
@@ -1384,8 +1393,10 @@ func (c *c19Ctx) execute(s *Scenario, keepDir bool) (out *ScenarioOutcome, viol 
 			out.dstCollected, out.dstIsFifo = sunk, true
 		}
 		if pr.TimedOut {
+			// not a verdict (a process that has not ended has no status to judge) and not a reason to stop:
+			// the scenario is counted as inconclusive and the run goes on
 			js, _ := json.Marshal(s)
-			infraFail("gosk CLI watchdog expired: %v\nscenario: %s", cmd, clip(js, 3000))
+			panic(hangErr(fmt.Sprintf("gosk CLI watchdog expired: %v\nscenario: %s", cmd, clip(js, 3000))))
 		}
 		if pr.StartErr != "" {
 			infraFail("cannot start %v: %s", cmd, pr.StartErr)
